@@ -1034,7 +1034,12 @@ func TestGen(t *testing.T) {
 		"a match block and then perturbed in one place, or drawn from the literal pools. Non-trivial = the VirtualService has at least one " +
 		"match block with a request condition and the request reaches some route or rule. " +
 		"B: generated service registries + VirtualServices through the real BuildSidecarOutboundVirtualHosts; one case per " +
-		"(scenario, authority); non-trivial = a VirtualService applies to the authority."
+		"scenario with authorities from the service FQDNs, VirtualService hosts and the Kubernetes alt-domain family (short name, name.ns, " +
+		"name.ns.svc, absolute FQDN, with and without port; namespaces ns / ns-x / other); non-trivial = the scenario has a VirtualService. " +
+		"C: 2-3 Gateways on one workload and HTTP port with disjoint server hosts, 1-3 VirtualServices bound to one or several of them with " +
+		"per-match gateways conditions, through the real BuildHTTPRoutes (router, http.80); 3 requests per server host; non-trivial = a " +
+		"VirtualService is bound to several Gateways or uses per-match gateways. " +
+		"D: 13-40 real routes of several VirtualServices concatenated (catch-alls in the middle) through the real SortVHostRoutes."
 	seed := vlib.Seed()
 	id := 0
 
@@ -1122,6 +1127,8 @@ func TestGen(t *testing.T) {
 	}
 
 	id = genVhostCases(t, c, id, seed)
+	id = genGatewayCases(t, c, id, seed)
+	id = genSortCases(t, c, id, seed)
 
 	if err := c.Flush(); err != nil {
 		t.Fatal(err)
